@@ -38,6 +38,43 @@ inductive After where
   | returnDefault | raiseStopAsyncIteration
   deriving DecidableEq, Repr
 
+/-- the kind of a FUNCTION OBJECT as `inspect` classifies it (code flags CO_COROUTINE / CO_GENERATOR /
+    CO_ASYNC_GENERATOR; `plain` = none of them).  For a `def`/`async def` statement it is a syntactic
+    property: `async` or not, contains a `yield`/`yield from` of its own or not. -/
+inductive FnKind where
+  | coroutine | generator | asyncgen | plain
+  deriving DecidableEq, Repr
+
+/-- one disjunct of a branch test of `Catcher.__call__`: `is<kind>function(function)`, or
+    `getattr(function, "<marker>", False)` (the attribute the async-generator branch sets on its wrapper) -/
+inductive BranchAtom where
+  | isKind (k : FnKind)
+  | hasMarker
+  deriving DecidableEq, Repr
+
+/-- a branch of `Catcher.__call__`: its test (a disjunction; `[]` = the final `else`), the kind of function
+    object the `catch_wrapper` it defines is, and whether it sets the marker attribute on that wrapper -/
+structure Branch where
+  atoms : List BranchAtom
+  wrapperKind : FnKind
+  setsMarker : Bool
+  deriving DecidableEq, Repr
+
+/-- where the recursion-guard flag `already_logging_exception` lives: an attribute of the
+    `threading.local()` object the Core creates (one flag per thread), or an attribute of an object
+    all threads share (the Core itself, the Logger, the Catcher) -/
+inductive FlagStore where
+  | threadLocal | shared
+  deriving DecidableEq, Repr
+
+/-- the slots of the options list `Catcher.__exit__` hands to `_log` -/
+inductive OptSlot where
+  | excTriple            -- `(type_, value, traceback_)`
+  | depthAdjusted        -- the logger's own depth + decorator adjustment + `_frames`
+  | constTrue            -- `True`
+  | inherited (i : Nat)  -- the i-th element of `logger._options`
+  deriving DecidableEq, Repr
+
 structure Shape where
   test : List Char        -- the predicate selecting the branch (`iscoroutinefunction`, …; empty = else)
   isAsync : Bool
